@@ -2044,7 +2044,11 @@ def _handle_assignment_ast(
         if (
             target.id not in declared
             and target.id in function_globals
-            and (is_global_scope or names_global_in_function)
+            and (
+                is_global_scope
+                or names_global_in_function
+                or ctx.get("current_function") is None
+            )
         ):
             declared.add(target.id)
         if target.id not in declared:
@@ -2170,7 +2174,11 @@ def _handle_assignment_ast(
             if (
                 name not in declared
                 and name in function_globals
-                and (is_global_scope or name in ctx.get("global_names", set()))
+                and (
+                    is_global_scope
+                    or name in ctx.get("global_names", set())
+                    or ctx.get("current_function") is None
+                )
             ):
                 declared.add(name)
             if name not in declared:
